@@ -7,6 +7,7 @@ import (
 	"encoding/asn1"
 	"encoding/hex"
 	"encoding/json"
+	"errors"
 	"fmt"
 	"strings"
 
@@ -720,4 +721,69 @@ func c03MissingFields(r *mc.Run, pool []*x509.Certificate) {
 		r.Eval(id, true, "missing-field:"+out)
 	})
 	r.SectionDone(mc.Section{Name: "missing-field-x-shadow", Evaluations: int64(done), Exhaustive: done == len(cases)})
+
+	// successive answers: the service answers the same URL differently from one request to the next (an error, a
+	// partial body, then another partial body). A document is authentic only if ONE response carries both the member
+	// and a signature over it: pieces of different responses do not add up. Sequences in which no single response is
+	// complete must never lead to acceptance; a sequence ending in the genuine response may (if the library asks again).
+	{
+		type seqCase struct {
+			name string
+			seq  func(d c03doc, good world.Response) []world.Response
+		}
+		part := func(d c03doc, good world.Response, member, sig bool) world.Response {
+			var obj map[string]json.RawMessage
+			json.Unmarshal(good.Body, &obj)
+			var parts []string
+			if member {
+				parts = append(parts, fmt.Sprintf("%q:%s", d.member, obj[d.member]))
+			}
+			if sig {
+				parts = append(parts, fmt.Sprintf("%q:%s", "signature", obj["signature"]))
+			}
+			return world.Response{Header: good.Header, Body: []byte("{" + strings.Join(parts, ",") + "}")}
+		}
+		fail := world.Response{Err: errors.New("503 service unavailable")}
+		seqs := []seqCase{
+			{"signature-only,then-member-only", func(d c03doc, g world.Response) []world.Response {
+				return []world.Response{part(d, g, false, true), part(d, g, true, false)}
+			}},
+			{"member-only,then-signature-only", func(d c03doc, g world.Response) []world.Response {
+				return []world.Response{part(d, g, true, false), part(d, g, false, true)}
+			}},
+			{"signature-only,then-member-only,then-empty-object", func(d c03doc, g world.Response) []world.Response {
+				return []world.Response{part(d, g, false, true), part(d, g, true, false), part(d, g, false, false)}
+			}},
+			{"error,then-signature-only,then-member-only", func(d c03doc, g world.Response) []world.Response {
+				return []world.Response{fail, part(d, g, false, true), part(d, g, true, false)}
+			}},
+			{"signature-only-without-header,then-member-only", func(d c03doc, g world.Response) []world.Response {
+				a := part(d, g, false, true)
+				a.Header = nil
+				return []world.Response{a, part(d, g, true, false)}
+			}},
+			{"member-only-x3", func(d c03doc, g world.Response) []world.Response {
+				return []world.Response{part(d, g, true, false), part(d, g, true, false), part(d, g, true, false)}
+			}},
+		}
+		for di, d := range docs {
+			for _, sc := range seqs {
+				id := fmt.Sprintf("sequence/%s/%s", d.member, sc.name)
+				if !r.Want(id) {
+					continue
+				}
+				g := w.Getter.Clone()
+				g.Sequences[d.url] = sc.seq(d, w.Getter.Responses[d.url])
+				o := w.Options(world.L1)
+				o.Getter = g
+				err := world.SafeVerifyRaw(w.Raw(), o)
+				out := verdict(err)
+				if err == nil {
+					r.Violate("sequence:accepted-pieces-of-different-responses:"+docs[di].member, id, "quote accepted although no single response to the "+d.member+" request carried both the member and its signature", map[string]any{"requests": g.Log})
+					out = "accept!"
+				}
+				r.Eval(id, true, "sequence:"+out)
+			}
+		}
+	}
 }
